@@ -214,10 +214,48 @@ def build_index(spec, default_cls=None):
     cls = getattr(sf, cls_name)
     py = [dec(l) for l in labels]
     if cls_name.startswith('IndexHierarchy'):
-        return cls.from_labels(py, name=name)
+        return _build_hierarchy(cls, py, name)
     if cls_name in ('IndexAuto',):
         return sf.Index(range(len(py)), loc_is_iloc=True, name=name)
     return cls(py, name=name)
+
+
+_ROUTE_TICK = [0]
+
+
+def _build_hierarchy(cls, py, name):
+    '''The same tuple labels through rotating construction routes: how a hierarchy was built (from labels, from a product, from
+    per-label Index objects that are shared or separate) must never be observable.  Deterministic: a counter picks the route.'''
+    _ROUTE_TICK[0] += 1
+    tick = _ROUTE_TICK[0]
+    if not py or any(len(t) != 2 for t in py):
+        return cls.from_labels(py, name=name)
+    outer = []
+    for t in py:
+        if t[0] not in outer:
+            outer.append(t[0])
+    inner = {o: [t[1] for t in py if t[0] == o] for o in outer}
+    grouped = [t for o in outer for t in py if t[0] == o] == list(py) and len(set(py)) == len(py)
+    if not grouped:
+        return cls.from_labels(py, name=name)
+    product = all(inner[o] == inner[outer[0]] for o in outer)
+    routes = ['labels', 'labels', 'items_separate']
+    if product:
+        routes = ['labels', 'product', 'items_shared', 'product', 'items_separate']
+    route = routes[tick % len(routes)]
+    try:
+        if route == 'product':
+            ih = cls.from_product(outer, inner[outer[0]], name=name)
+        elif route == 'items_shared':
+            shared = sf.Index(inner[outer[0]])
+            ih = cls.from_index_items((o, shared) for o in outer).rename(name)
+        elif route == 'items_separate':
+            ih = cls.from_index_items((o, sf.Index(inner[o])) for o in outer).rename(name)
+        else:
+            return cls.from_labels(py, name=name)
+    except Exception:
+        return cls.from_labels(py, name=name)
+    return ih
 
 
 def labels_of(ix):
